@@ -522,3 +522,12 @@ impl<Ctx: OptCtx> LoweredToMir<'_, Ctx> {
         crate::verif_hooks::c01::cfg_of(&self.ir)
     }
 }
+
+#[cfg(feature = "verif-hooks")]
+impl<Ctx: OptCtx> LoweredToLir<'_, Ctx> {
+    /// Verification hook (C12): structured dump of the LIR for the
+    /// frame-local-writes checker.
+    pub fn verif_c12_dump(&self) -> String {
+        crate::verif_hooks::c12::dump_lir(&self.ir)
+    }
+}
